@@ -422,16 +422,22 @@ func (c *Ctx) lockBalanceFrom(label string, mu *types.Var, fn *ssa.Function, ent
 	deferredUnlock := false
 	var unlockIn func(f *ssa.Function) bool
 	unlockIn = func(f *ssa.Function) bool {
+		// a deferred closure that takes mu itself (Lock ... Unlock) is balanced on its own
+		// and releases nothing for the enclosing function
+		rel := false
 		for _, b := range f.Blocks {
 			for _, in := range b.Instrs {
 				if call, ok := in.(*ssa.Call); ok {
-					if mv, d := mutexOfCall(&call.Call); mv != nil && sameField(mv, mu) && d < 0 {
-						return true
+					if mv, d := mutexOfCall(&call.Call); mv != nil && sameField(mv, mu) {
+						if d > 0 {
+							return false
+						}
+						rel = true
 					}
 				}
 			}
 		}
-		return false
+		return rel
 	}
 	for _, b := range fn.Blocks {
 		for _, in := range b.Instrs {
